@@ -28,7 +28,7 @@ def run(ctx):
     exe = pc.harness()
     ctx.phase('build')
     r = ctx.rng
-    n = 120 if ctx.quick else 2500
+    n = 100 if ctx.quick else 2500
     cases = [pc.gen_case(r, exceptions=False, small=(i % 10 != 0) or ctx.quick) for i in range(n)]
     kept, terms = pc.run_lockstep(ctx, exe, cases)
     nn = 12 if ctx.quick else 150
@@ -40,8 +40,8 @@ def run(ctx):
     ctx.cov['rule'] = ('random non-throwing pipelines (1-4 later stages, limits 1/2/3/unlimited/0,4,7 or plain functors, filters dropping items by tag, 0-6 items (lockstep) / 0-30 '
                        '(native), 1-3 workers, inline thresholds) x random schedules under vsched, one fork per case; non-trivial = more than 20 steps; distinct = distinct (trace, log) '
                        'strings; native = real pools of 0-4 threads, 2 repetitions')
-    verdicts = ls_common.judge_parallel(ctx, pc.IMPORTS, 'judge_c27', terms, shard_size=60)
-    nverd = ls_common.judge_parallel(ctx, pc.IMPORTS, 'judge_c27n', nterms, shard_size=60)
+    verdicts = ls_common.judge_parallel(ctx, pc.IMPORTS, 'judge_c27', terms, shard_size=25)
+    nverd = ls_common.judge_parallel(ctx, pc.IMPORTS, 'judge_c27n', nterms, shard_size=25)
     if verdicts is not None and nverd is not None:
         verdicts = verdicts + nverd
     else:
